@@ -16,7 +16,7 @@ ASSUMPTIONS = ['trees whose names leave the route alphabet, or whose files have 
                'the file-system walk is an input of the model']
 MIME = {'txt': 'text/plain', 'html': 'text/html', 'css': 'text/css', 'js': 'text/javascript', 'xml': 'text/xml', 'csv': 'text/csv', 'tsv': 'text/tab-separated-values', 'vcard': 'text/vcard',
         'jpeg': 'image/jpeg', 'gif': 'image/gif', 'png': 'image/png', 'svg': 'image/svg+xml', 'woff': 'font/woff', 'woff2': 'font/woff2', 'json': 'application/json', 'pdf': 'application/pdf'}
-NAMES = ['a', 'b', 'index', 'main', 'app.min', 'x-y', 'x_y', 'a1', 'data', 'docs']
+NAMES = ['a', 'b', 'index', 'main', 'app.min', 'x-y', 'x_y', 'a1', 'data', 'docs', 'search-index', 'myindex', 'index.html']      # names that merely end in / start with index.html are ordinary files
 DIRS = ['sub', 'deep', 'assets', 'docs', 'v1.2', 'a']
 
 
@@ -109,6 +109,9 @@ def corpus():
             {'case': {'tree': base, 'mount': '/s', 'omit': ['html'], 'reqs': reqs}},
             {'case': {'tree': base + [f([':p.txt'], 'PARAMFILE')], 'mount': '/s', 'omit': [], 'reqs': reqs}},                       # was: a param route answering every sibling path
             {'case': {'tree': base, 'mount': '/s', 'omit': [], 'reqs': reqs, 'links': [['link.txt', 'outside/secret.txt']]}},      # was: an outside file served
+            {'case': {'tree': base, 'mount': '/s', 'omit': [], 'reqs': reqs + [hx('/s/shared/secret.txt'), hx('/s/shared')], 'links': [['shared', 'outside']]}},          # a link to a directory outside
+            {'case': {'tree': base, 'mount': '/s', 'omit': [], 'reqs': reqs + [hx('/s/sub/shared/secret.txt'), hx('/s/sub/l.txt')], 'links': [['sub/shared', 'outside'], ['sub/l.txt', 'outside/secret.txt']]}},
+            {'case': {'tree': [f(['docs', 'search-index.html'], 'SI'), f(['docs', 'a.txt'], 'T'), f(['myindex.html'], 'MI')], 'mount': '/site', 'omit': [], 'reqs': [hx(p) for p in ['/site/docs', '/site/docs/', '/site/docs/search-index.html', '/site', '/site/myindex.html', '/site/docs/index.html']]}},
             {'case': {'tree': [f(['noext'], 'x')], 'mount': '/s', 'omit': [], 'reqs': reqs[:3]}},
             {'case': {'tree': [f(['docs.html', 'index.html'], 'D')], 'mount': '/', 'omit': ['html'], 'reqs': [hx('/docs'), hx('/docs.html'), hx('/docs.html/index.html'), hx('/')]}},
             {'case': {'tree': [f(['index.html'], 'ROOT'), f(['e.txt'], '')], 'mount': '/', 'omit': [], 'reqs': [hx('/'), hx('/index.html'), hx('/e.txt'), hx('//')]}}]
